@@ -1846,7 +1846,7 @@ where
         *container = self.add_child(container, NodeValue::ThematicBreak, self.first_nonspace + 1);
 
         let adv = line.len() - 1 - self.offset;
-        container.data.borrow_mut().sourcepos.end = (self.line_number, adv).into();
+        container.data.borrow_mut().sourcepos.end = (self.line_number, self.curline_end_col).into();
         self.advance_offset(line, adv, false);
 
         true
@@ -2706,7 +2706,9 @@ where
         let content = &mut ast.content;
         let parent = node.parent();
 
-        if self.curline_len == 0 {
+        if matches!(ast.value, NodeValue::ThematicBreak) {
+            // sourcepos.end set during opening.
+        } else if self.curline_len == 0 {
             ast.sourcepos.end = (self.line_number, self.last_line_length).into();
         } else if match ast.value {
             NodeValue::Document => true,
@@ -2715,8 +2717,6 @@ where
             _ => false,
         } {
             ast.sourcepos.end = (self.line_number, self.curline_end_col).into();
-        } else if matches!(ast.value, NodeValue::ThematicBreak) {
-            // sourcepos.end set during opening.
         } else {
             ast.sourcepos.end = (self.line_number - 1, self.last_line_length).into();
         }
